@@ -100,6 +100,15 @@ impl VDigest {
 #[verifier::external_body]
 pub fn vslice_to_vec(a: &[u8; 32]) -> (r: Vec<u8>) ensures r@ == a@ { unimplemented!() }
 
+impl VIdMap<Sha256> {
+    /// map.entry(k).or_default()  [rewrite R14]: the value at k, inserting Default::default() first when k is absent
+    #[verifier::external_body]
+    pub fn entry_or_default<'a>(&'a mut self, k: u64) -> (r: &'a mut Sha256)
+        ensures
+            *r == (if old(self)@.contains_key(k) { old(self)@[k] } else { Sha256 { input: Ghost(Seq::<u8>::empty()) } }),
+            final(self)@ == old(self)@.insert(k, *final(r)),
+    { unimplemented!() }
+}
 impl<V> VIdMap<V> {
     /// `for (k, v) in map` (by value, unspecified order)  [rewrite R9]: the entries as a vector, each key once
     #[verifier::external_body]
